@@ -71,7 +71,14 @@ type World struct {
 	trueInv   *ssa.Function
 }
 
-var repoDir = "/repo"
+// repoDir is /repo for every registered check; VERIF_REPO points the engine at a scratch
+// worktree when seeded changes are tried out without touching /repo.
+var repoDir = func() string {
+	if d := os.Getenv("VERIF_REPO"); d != "" {
+		return d
+	}
+	return "/repo"
+}()
 
 func loadWorld(patterns []string, goarch string) (*World, error) {
 	start := time.Now()
